@@ -429,8 +429,8 @@ func serveOne(o *Outcome, ch *Chooser, logf func(string, ...any), srv *sse.Serve
 	prov.during = nil
 	subFails := ch.Chance(1, 4, "Subscribe fails")
 	if subFails {
-		prov.subErr = newInjected("provider refuses")
-		logf("Subscribe returns an error")
+		prov.subErr = newInjectedAs("provider refuses", drawDisguise(ch, "refusal"))
+		logf("Subscribe returns the error %v", prov.subErr)
 	}
 	var sent *sse.Message
 	if !subFails && ch.Chance(1, 2, "provider sends a message") {
